@@ -10,6 +10,8 @@ from mc.ref import hdlc as RH
 from mc.snap import digest
 
 _POOL = None
+_last_result: dict = {}
+THOROUGH_POOL = False
 
 
 def pool():
@@ -19,6 +21,15 @@ def pool():
         ev = {k: (m, own) for k, (m, own) in gen.items()}
         for k, m in autox.junk_pool(gen).items():
             ev[k] = (m, None)
+        if THOROUGH_POOL:
+            for k in sorted(x for x in gen if x.startswith("fix.")):
+                m = gen[k][0]
+                for i in range(1, len(m), 8):
+                    ev[f"junk.trunc{i}.{k}"] = (m[:i], None)
+                for i in range(min(12, len(m))):
+                    for r in (0x00, 0x01, 0x02, 0x09, 0x0A, 0x0C, 0xFF):
+                        if r != m[i]:
+                            ev[f"junk.sub{i}_{r:02x}.{k}"] = (m[:i] + bytes([r]) + m[i + 1:], None)
         _POOL = (gen, ev, autox.state_makers(gen))
     return _POOL
 
@@ -70,6 +81,7 @@ def judge(state, key, history_genuine_same):
             viol.append(f"decode_message_payload {what} although {[names[i] for i in acc]} accept the payload")
         return viol, esc, state, False
     after = a.previous_success_decoder
+    _last_result["res"] = res
     if res is None:
         if acc:
             viol.append(f"result None although {[names[i] for i in acc]} accept the payload")
@@ -103,6 +115,41 @@ def replay(case: dict) -> list[str]:
     return v
 
 
+def _work_seq(task) -> core.Part:
+    """Exhaustive histories of length <= 3 over a sub-pool, each replayed on ONE live AutoDecoder; every step must
+    agree with the transition table of the fixpoint exploration (detects any dependence on state that the snapshot of
+    the AutoDecoder does not show, e.g. module-level caches)."""
+    import itertools
+
+    from han import autodecoder
+
+    first, sub, table = task
+    gen, ev, makers = pool()
+    p = core.Part()
+    for rest in itertools.product(sub, repeat=2):
+        seq = (first,) + rest
+        a = autodecoder.AutoDecoder()
+        state = None
+        for i, key in enumerate(seq):
+            payload = ev[key][0]
+            k, res, _ = budget.run_budget(lambda: a.decode_message_payload(payload), budget.budget_for(len(payload)) * 8)
+            p.add("transitions")
+            want = table.get((state, key))
+            if want is None:
+                break
+            after_w, res_w = want
+            if k != "ok":
+                p.add("escapes_reported_under_C15")
+                break
+            if a.previous_success_decoder != after_w or res != res_w:
+                p.viol("history", f"history:{seq[:i + 1]}", f"history {list(seq[:i + 1])}: step {i} gives {res!r:.80} / state {a.previous_success_decoder}, "
+                       f"but the same payload from state {state} alone gives {res_w!r:.80} / state {after_w}", {"state": None, "event": key, "history": list(seq[:i + 1])}, size=i + 1)
+                break
+            state = after_w
+        p.add("sequences")
+    return p
+
+
 def _work(task) -> core.Part:
     state, keys = task
     p = core.Part()
@@ -112,7 +159,7 @@ def _work(task) -> core.Part:
         if decoded:
             p.add("decoded")
         p.out(f"{state}->{after}")
-        p.s.append((state, key, after))
+        p.s.append((state, key, after, _last_result.get("res") if not esc else "__escape__"))
         if esc:
             p.add("escapes_reported_under_C15", len(esc))
         for m in v:
@@ -123,20 +170,25 @@ def _work(task) -> core.Part:
 def main(run: core.Run) -> int:
     run.rule = ("events = every pool payload (28 captured messages + reference-built lists of every supported shape in frame and bare-body form + 5 P1 blocks + junk); states = reachable AutoDecoder snapshots; "
                 "BFS to a fixpoint executes every (state, event) transition on the real object, both entry points; non-trivial = distinct transitions whose result is a dictionary")
+    global THOROUGH_POOL
+    THOROUGH_POOL = not run.quick
     gen, ev, makers = pool()
     keys = sorted(ev)
     seen = {None}
     frontier = [None]
     parts = []
     edges = 0
+    table = {}
     while frontier:
         tasks = [(st, keys[i::8]) for st in frontier for i in range(8)]
         res = par.pmap(_work, tasks, seed=run.seed)
         nxt = []
         for p in res:
             for rec in p.s:
-                if isinstance(rec, tuple) and len(rec) == 3:
+                if isinstance(rec, tuple) and len(rec) == 4:
                     edges += 1
+                    if rec[3] != "__escape__":
+                        table[(rec[0], rec[1])] = (rec[2], rec[3])
                     if rec[2] not in seen:
                         seen.add(rec[2])
                         nxt.append(rec[2])
@@ -144,6 +196,15 @@ def main(run: core.Run) -> int:
             parts.append(p)
         frontier = nxt
     run.merge(parts)
+    # histories of length <= 3, exhaustively, over a sub-pool: one genuine message per decoder in both sources, P1, junk
+    sub = []
+    for name in autox.DECODER_NAMES:
+        ks = sorted(k for k, (m, own) in gen.items() if own == name)
+        sub += [ks[0], ks[-1]]
+    sub += ["junk.12345", "junk.empty", "junk.paren", "junk.ascii"] + sorted(k for k in ev if k.startswith("junk.tag0"))[:2]
+    sub = list(dict.fromkeys(sub))
+    run.log(f"fixpoint: {len(seen)} states, {edges} transitions; histories <= 3 over {len(sub)} events")
+    run.merge(par.pmap(_work_seq, [(f, sub, table) for f in sub], seed=run.seed))
     tot = run.total
     nontriv = tot.c.get("decoded", 0)
     tot.sample({"state": None, "event": "ref.kaifa.list1_1320W.body", "payload": "02010600000528", "expected": "decoded by Kaifa_notification_body"})
@@ -151,4 +212,6 @@ def main(run: core.Run) -> int:
     run.bounds = {"pool": len(keys), "genuine": len(gen), "states_reached": sorted(str(s) for s in seen), "fixpoint": True}
     run.assumptions = ["the AutoDecoder's future depends only on its snapshotted attributes, so the BFS over remembered-decoder states closes and covers histories of any length over the pool",
                        "accept/reject of the individual decoders is observed by calling the seven public functions directly"]
-    return run.finish(states=len(seen), transitions=edges, traces=edges, evaluations=edges, distinct_nontrivial=nontriv)
+    run.bounds["histories"] = f"all {len(sub)}^3 sequences of length 3 (and their prefixes) over a {len(sub)}-event sub-pool, replayed on one live object"
+    nseq = tot.c.get("sequences", 0)
+    return run.finish(states=len(seen), transitions=tot.c.get("transitions", edges), traces=edges + nseq, evaluations=edges + nseq, distinct_nontrivial=nontriv)
